@@ -227,7 +227,12 @@ class ArithHooks(Hooks):
                 exp = model_binop(pair[0], pair[1], op_, live=(None, law) if left else (law, None))
                 if exp['ambiguous']:
                     continue
-                bad = ('raised', res) if isinstance(res, str) else pointwise_mismatch(MS(res[0], res[1], res[2], None), exp)
+                if isinstance(res, str):
+                    bad = ('raised', res)
+                elif np.size(res[0]) > 200000 or np.size(res[0]) != exp['grid'].size:
+                    bad = ('grid', 'result grid has %d points, uniform union grid has %d' % (np.size(res[0]), exp['grid'].size))
+                else:
+                    bad = pointwise_mismatch(MS(res[0], res[1], res[2], None), exp)
                 if bad:
                     it.violate('C13.pointwise', {'fn': fn, 'what': 'short-lived-operands:' + bad[0]},
                                'catalogue entry %s %s the held spectrum, built and dropped in a loop: %s' % (unit, op_, bad[1]), i)
